@@ -655,6 +655,19 @@ impl<M: Manager, W: From<Object<M>>> Pool<M, W> {
         }
     }
 
+    /// Whether the slots mutex is held right now (verification builds only).
+    /// A harness in which only one operation runs at a time uses this inside
+    /// manager callbacks to learn whether the pool called it under its lock.
+    #[cfg(deadpool_verif)]
+    #[doc(hidden)]
+    #[must_use]
+    pub fn verif_slots_locked(&self) -> bool {
+        matches!(
+            self.inner.slots.try_lock(),
+            Err(std::sync::TryLockError::WouldBlock)
+        )
+    }
+
     /// Visits the idle objects in queue order (verification builds only).
     #[cfg(deadpool_verif)]
     #[doc(hidden)]
